@@ -411,6 +411,9 @@ def check(prog, res, tier):
     res.add(runs_fl.judge('C01.f', 'BitArray.fromlist packs the flags MSB first into big-endian bytes', func_where(bci.lookup('fromlist')[1]),
                           "int(binary_value, 2).to_bytes(len(binary_value) // 8, byteorder='big')", chk_fl, rule='C01.f.fromlist'))
 
+    # ---- C01.h element round trip at descriptor level
+    res.add(element_roundtrip_ob(prog, res, du))
+
     # ---- C01.g codec flow
     bad = []
     n_codec = 0
@@ -461,3 +464,104 @@ def check(prog, res, tier):
 def _ascii_internal(v):
     from ..ext import _ascii_only
     return _ascii_only(v)
+
+
+def element_roundtrip_ob(prog, res, du):
+    """decode(encode(v)) is v, shown on descriptors: the encoder's abstract output (prefix numeral ++ payload) is handed,
+    followed by arbitrary further bytes, to the element decoder on the same abstract path."""
+    enc = prog.func(FIELD)
+    dec = prog.func('iso8583._iso8583_to_field')
+
+    def entry(it):
+        e = common.generic_entry(it)
+        kind = it.choose(3, 'value kind')
+        if kind in (0, None):
+            v = it.sym_str('value')
+        elif kind == 1:
+            v = it.sym_bytes('value')
+            e.items['field_processor'] = SymV(f'{e.entry_name}.field_processor', 'str', choices=('ICC',))
+            e.items['field_python_type'] = ConstV(None)
+        else:
+            v = it.sym_int('value', 0, None)
+            e.items['field_python_type'] = SymV(f'{e.entry_name}.field_python_type', 'str', choices=('int', 'long'))
+            e.items['field_processor'] = ConstV(None)
+        codec_ = codec(it)
+        it.user.update(entry=e, value=v, vkind=('str', 'bytes', 'int')[kind or 0])
+        out = it.call_function(enc, [e, v], {'encoding': codec_})
+        it.user['out'] = out
+        # well-formed values only: fixed text exactly as wide as the field, numbers that fit
+        ft = it.py_key(it.resolve(e.items['field_type']))
+        fl = e.items['field_length'].lin
+        if ft == 'FIXED' and isinstance(v, SeqV):
+            it.store.assume_eq0(v.length() - fl)
+        tail = it.sym_bytes('following_elements', tags=frozenset(['wire']))
+        from .. import seqops as _s
+        md = _s.concat(it, out, tail) if isinstance(out, SeqV) else out
+        it.user['md_len'] = out.length() if isinstance(out, SeqV) else None
+        return it.call_function(dec, [it.sym_int('bit', 2, 127), e, md, codec_], {})
+    runs = Runs(prog, entry, summaries=du.leaf_summaries, hooks=common.HOOKS, res=res)
+
+    def chk(p, mode):
+        it = p.interp
+        st = p.store
+        e = it.user['entry']
+        proc = it.py_key(it.resolve(e.items['field_processor']))
+        pt = it.py_key(it.resolve(e.items['field_python_type']))
+        vk = it.user['vkind']
+        ft = it.py_key(it.resolve(e.items['field_type']))
+        v = it.user['value']
+        out = it.user.get('out')
+        if proc in ('PAN', 'PAN-PREFIX') or pt in ('decimal', 'datetime'):
+            return []          # masked on purpose / value-level conversions not decided
+        if vk == 'str' and pt in ('int', 'long'):
+            return []          # text cells of numeric fields: int(text) is a value-level conversion
+        if not isinstance(out, SeqV):
+            return []
+        if vk == 'int':
+            # only numbers that fit their field: the numeral is not truncated
+            if any(isinstance(g, Opq) and isinstance(g.desc, tuple) and g.desc[0] == 'numpart' for g in out.segs):
+                return []
+        if vk == 'bytes' and ft == 'FIXED':
+            trial = st.decide_eq0(v.length() - e.items['field_length'].lin)
+            if trial is not True:
+                return []
+        if p.outcome == 'raise':
+            exc = p.value
+            if exc.raise_node is not None and it.prog.node_owner.get(id(exc.raise_node)) is not None and \
+                    it.prog.node_owner[id(exc.raise_node)].short == FIELD:
+                return []      # the encoder refused the value (over-length): nothing to decode
+            if exc.op is None and getattr(exc, 'unit', None) is None:
+                return [definite(f'the element decoder rejects what the encoder produced for a well-formed {ft}/{pt or "text"}/{vk} value: '
+                                 f'{norm_text(exc.raise_node)[:90] if exc.raise_node is not None else exc!r}')]
+            return []
+        if p.outcome != 'return':
+            return []
+        r = p.value
+        if not (isinstance(r, TupleV) and len(r.items) == 2 and isinstance(r.items[0], DictV) and isinstance(r.items[1], IntV)):
+            return [soft('decoder result has an unexpected shape')]
+        fails = need_eq0(st, r.items[1].lin - it.user['md_len'],
+                         f'{ft}/{pt or "text"}/{vk}: the decoder consumes {st.canon(r.items[1].lin)} bytes of an element that was '
+                         f'encoded in {st.canon(it.user["md_len"])} bytes')
+        vals = [x for k, x in r.items[0].sym_stores if isinstance(k, SeqV) and k.segs and isinstance(k.segs[0], Lit)
+                and k.segs[0].data.startswith('DE')]
+        if not vals:
+            return fails + [definite('no element value is returned')]
+        got = it.resolve(vals[-1])
+        if vk == 'int':
+            if not (isinstance(got, IntV) and st.decide_eq0(got.lin - v.lin) is True):
+                fails.append(definite(f'{ft}/{pt}: the number {v!r} comes back as {got!r}'))
+        else:
+            same = isinstance(got, SeqV) and len(got.segs) <= 1 and (
+                (not got.segs and st.decide_eq0(v.length()) is True) or
+                (got.segs and isinstance(got.segs[0], Sl) and got.segs[0].src is v.segs[0].src and st.decide_eq0(got.segs[0].lo) is True
+                 and st.decide_eq0(got.segs[0].hi - v.length()) is True))
+            if not same:
+                fails.append(definite(f'{ft}/{pt or "text"}/{vk}: the value comes back as {got!r}, not as the value that was encoded'))
+            elif vk == 'bytes' and got.kind != 'bytes':
+                fails.append(definite('a binary value comes back as text'))
+        return fails
+    return runs.judge('C01.h', 'element round trip on descriptors: decoding the encoder\'s output returns the encoded text / bytes / number '
+                               'and consumes exactly the bytes that were produced (all lengths, any single-byte codec)',
+                      f'{enc.module.path}:{enc.short}', '_iso8583_to_field(_field_to_iso8583(value))', chk,
+                      sample=lambda ps: [f"{it_.user['vkind']}: {it_.user.get('out')!r} -> {p_.value!r}"[:260]
+                                         for p_ in ps for it_ in [p_.interp] if p_.outcome == 'return'][:4])
